@@ -24,7 +24,7 @@ impl<R: Read> Read for FusedReader<R> {
         match &mut self.inner {
             Some(r) => {
                 let l = r.read(buf)?;
-                if l == 0 {
+                if l == 0 && !buf.is_empty() {
                     self.inner = None;
                 }
                 Ok(l)
